@@ -1,7 +1,9 @@
 """./vcheck selftest [Cxx]: the mutant corpus.  Every patch under mutants/defect_*.patch and seeded/<id>/patch.diff is
 applied to a scratch copy of /repo (outside /repo and /verif, removed afterwards); the check of its property must exit
 1 with a VIOLATION line.  mutants/neutral_*.patch (behaviour-preserving refactorings) must leave every affected check
-at exit 0.  Evidence / replays written by these runs are discarded."""
+at exit 0.  Evidence / replays written by these runs are discarded.
+`./vcheck selftest engine`: only the encoder self-test (contracts/engine_lemmas.py, run first in every full self-test).
+`./vcheck selftest neutral`: the larger corpus neutral/*.diff against ALL checks (about 5 minutes per patch)."""
 from __future__ import annotations
 
 import json
@@ -44,7 +46,41 @@ def _run(patch: Path, props, expect_violation: bool) -> bool:
     return ok
 
 
+def _engine() -> bool:
+    """encoder self-test: lemmas about Python's own semantics, proved by the engine and run under CPython"""
+    env = dict(os.environ, AHBICHT_REPO="/repo", PYTHONPATH=f"/repo/src:{VERIF}")
+    r = subprocess.run([str(VERIF / ".venv/bin/python"), "-W", "ignore", str(VERIF / "tools/engine_selftest.py")],
+                       env=env, capture_output=True, text=True, cwd=str(VERIF))
+    for l in r.stdout.splitlines():
+        if not l.startswith("ok "):
+            print("SELFTEST engine:", l[:300])
+    return r.returncode == 0
+
+
+def _neutral_corpus() -> bool:
+    """neutral/*.diff (behaviour-preserving refactorings by independent sub-agents): every check, no alarm"""
+    ok = True
+    for patch in sorted((VERIF / "neutral").glob("*.diff")):
+        r = subprocess.run([str(VERIF / ".venv/bin/python"), str(VERIF / "tools/eval_neutral.py"), str(patch)],
+                           capture_output=True, text=True, cwd=str(VERIF))
+        first = r.stdout.strip().splitlines()[0] if r.stdout.strip() else r.stderr[-200:]
+        print(f"SELFTEST neutral/{patch.name}: exit {r.returncode} -> {'ok' if r.returncode == 0 else 'ALARM'} {first[:200]}")
+        ok &= r.returncode == 0
+    return ok
+
+
 def selftest(only=None) -> int:
+    if only == "engine":
+        ok = _engine()
+        print("SELFTEST", "passed" if ok else "FAILED")
+        return 0 if ok else 1
+    if only == "neutral":
+        ok = _neutral_corpus()
+        print("SELFTEST", "passed" if ok else "FAILED")
+        return 0 if ok else 1
+    if not only and not _engine():
+        print("SELFTEST FAILED (encoder self-test)")
+        return 1
     saved = tempfile.mkdtemp(prefix="ahb_selftest_evidence_")
     shutil.copytree(VERIF / "evidence", saved + "/evidence")
     ok = True
